@@ -706,211 +706,226 @@ func TestC15(t *testing.T) {
 	seq := 0
 	seen := map[string]bool{}
 	ms := func(n int) time.Duration { return time.Duration(n) * time.Millisecond }
-	c, err := cluster.Start(cluster.Options{Replicas: 2, Partitions: 13, Manual: true}, 3)
-	if err != nil {
-		t.Fatal(err)
+	// cluster shapes: the quick tier runs the first one, the thorough tier all of them (VERIF_C15_SHAPES)
+	shapes := []struct {
+		N, R int
+		P    uint64
+		T    int
+	}{{3, 2, 13, 0}, {1, 1, 7, 0}, {2, 1, 7, 512}, {3, 3, 13, 0}, {2, 2, 7, 512}}
+	if k := envInt("VERIF_C15_SHAPES", 1); k < len(shapes) {
+		shapes = shapes[:k]
 	}
-	defer c.Shutdown()
-	sum.Configs = append(sum.Configs, "N=3 R=2 P=13")
-	paths := allPaths(t, c)
-	for _, m := range c.Live()[:1] {
-		pp, err := Pipeline(m)
-		if err != nil {
-			t.Fatal(err)
-		}
-		paths = append(paths, pp)
-	}
-	defer func() {
-		for _, p := range paths {
-			p.Close()
-		}
-	}()
-	type kase struct {
-		name  string
-		steps func(key string) []Step // the operation under test and its follow-ups (after the initial state)
-		lock  bool
-	}
-	var cases []kase
-	for _, cond := range []string{"", "NX", "XX"} {
-		for _, mode := range []string{"", "EX", "PX", "EXAT", "PXAT"} {
-			cond, mode := cond, mode
-			cases = append(cases, kase{name: "put" + cond + mode, steps: func(key string) []Step {
-				o := PutOpts{NX: cond == "NX", XX: cond == "XX", Mode: mode}
-				switch mode {
-				case "EX", "PX":
-					o.D = ms(120)
-				case "EXAT", "PXAT":
-					o.D = time.Duration(time.Now().Add(ms(420)).UnixMilli()) * time.Millisecond
-				}
-				at := ms(300)
-				if mode == "EXAT" || mode == "PXAT" {
-					at = 0
-				}
-				return []Step{{Op: "put", Key: key, Val: "new-" + key, Opts: o, At: at}, {Op: "get", Key: key},
-					{Op: "get", Key: key, At: ms(470)}}
-			}})
-		}
-	}
-	for _, msv := range []bool{false, true} {
-		msv := msv
-		cases = append(cases, kase{name: fmt.Sprintf("expire ms=%v", msv), steps: func(key string) []Step {
-			return []Step{{Op: "expire", Key: key, D: ms(100), Ms: msv, At: ms(300)}, {Op: "get", Key: key}, {Op: "get", Key: key, At: ms(450)}}
-		}})
-	}
-	cases = append(cases, kase{name: "getput", steps: func(key string) []Step {
-		return []Step{{Op: "getput", Key: key, Val: "gp-" + key, At: ms(300)}, {Op: "get", Key: key}, {Op: "get", Key: key, At: ms(450)}}
-	}})
-	cases = append(cases, kase{name: "del1", steps: func(key string) []Step {
-		return []Step{{Op: "mdel", Keys: []string{key}, At: ms(300)}, {Op: "get", Key: key}}
-	}})
-	for n := 2; n <= 4; n++ {
-		n := n
-		cases = append(cases, kase{name: fmt.Sprintf("del%d", n), steps: func(key string) []Step {
-			ks := []string{key}
-			for j := 1; j < n; j++ {
-				ks = append(ks, fmt.Sprintf("%s+%d", key, j))
-			}
-			st := []Step{}
-			for _, k := range ks[1:] {
-				st = append(st, Step{Op: "put", Key: k, Val: "x-" + k})
-			}
-			st = append(st, Step{Op: "mdel", Keys: ks, At: ms(300)})
-			for _, k := range ks {
-				st = append(st, Step{Op: "get", Key: k})
-			}
-			return st
-		}})
-	}
-	cases = append(cases, kase{name: "lock", lock: true, steps: func(key string) []Step {
-		// (a Get of the lock key would return the random token, which the driver cannot name)
-		return []Step{{Op: "lock", Key: key, D: 0, Deadline: ms(50), At: ms(300)}, {Op: "lease", Key: key, D: ms(100)},
-			{Op: "unlock", Key: key}, {Op: "get", Key: key}}
-	}})
-	cases = append(cases, kase{name: "locktimeout", lock: true, steps: func(key string) []Step {
-		return []Step{{Op: "lock", Key: key, D: ms(120), Deadline: ms(50), At: ms(300)},
-			{Op: "lock", Key: key, D: ms(100), Deadline: ms(40), At: ms(330), Slot: 1},
-			{Op: "lock", Key: key, D: ms(100), Deadline: ms(400), At: ms(480), Slot: 2}, {Op: "unlock", Key: key, Slot: 2}}
-	}})
-	numCases := []kase{
-		{name: "incr", steps: func(key string) []Step {
-			return []Step{{Op: "incr", Key: key, Delta: 4, At: ms(300)}, {Op: "get", Key: key, Num: true}, {Op: "get", Key: key, Num: true, At: ms(450)}}
-		}},
-		{name: "decr", steps: func(key string) []Step {
-			return []Step{{Op: "decr", Key: key, Delta: 3, At: ms(300)}, {Op: "get", Key: key, Num: true}, {Op: "get", Key: key, Num: true, At: ms(450)}}
-		}},
-	}
-	fltCase := kase{name: "incrbyfloat", steps: func(key string) []Step {
-		return []Step{{Op: "incrf", Key: key, Delta: 512, At: ms(300)}, {Op: "get", Key: key, Float: true}}
-	}}
-	rec := NewRecorder()
-	var scripts []Script
 	n := 0
-	add := func(k kase, init string, p Path, setup []Step) {
-		if rng.Intn(100) >= fraction {
-			return
-		}
-		if k.lock {
-			if _, ok := p.(*pipePath); ok {
-				return
+	for si, sh := range shapes {
+		func() {
+			shape := fmt.Sprintf("N=%d R=%d P=%d T=%d", sh.N, sh.R, sh.P, sh.T)
+			c, err := cluster.Start(cluster.Options{Replicas: sh.R, Partitions: sh.P, TableSize: sh.T, Manual: true, Housekeeping: housekeeping(sh.T)}, sh.N)
+			if err != nil {
+				t.Fatal(err)
 			}
-		}
-		n++
-		key := fmt.Sprintf("q%d", n)
-		// the initial state is established through an embedded client on the first member
-		var st []Step
-		for _, s := range setup {
-			s.Key = key
-			st = append(st, s)
-		}
-		sum.Paths[p.Name()]++
-		if len(st) > 0 {
-			scripts = append(scripts, Script{Client: fmt.Sprintf("i%d", n), Path: paths[0], Steps: st})
-		}
-		steps := k.steps(key)
-		scripts = append(scripts, Script{Client: fmt.Sprintf("u%d", n), Path: p, Steps: steps})
-		sum.Evaluations += len(st) + len(steps)
-		if len(sum.Samples) < 3 && rng.Intn(50) == 0 {
-			sum.Samples = append(sum.Samples, map[string]any{"case": k.name, "initial": init, "path": p.Name(), "steps": steps})
-		}
-	}
-	for _, p := range paths {
-		for _, k := range cases {
-			add(k, "absent", p, nil)
-			add(k, "present", p, []Step{{Op: "put", Val: "old"}})
-			add(k, "present+ttl", p, []Step{{Op: "put", Val: "old", Opts: PutOpts{Mode: "PX", D: ms(420)}}})
-		}
-		for _, k := range numCases {
-			add(k, "absent", p, nil)
-			add(k, "present", p, []Step{{Op: "incr", Delta: 10}})
-			add(k, "present+ttl", p, []Step{{Op: "incr", Delta: 10}, {Op: "expire", D: ms(420), Ms: true}})
-		}
-		add(fltCase, "absent", p, nil)
-		add(fltCase, "present", p, []Step{{Op: "incrf", Delta: 1024}})
-	}
-	if len(sum.Samples) == 0 && len(scripts) > 0 {
-		sum.Samples = append(sum.Samples, map[string]any{"path": scripts[len(scripts)-1].Path.Name(), "steps": scripts[len(scripts)-1].Steps})
-	}
-	rec.Run("c15", scripts, nil)
-	record(w, rec, &seq, sum, seen, trace.Ev{"cfg": "N=3 R=2 P=13"}, func(h *History) bool { return true })
-	// one pipeline carrying many operations, one per key, of every kind, spread over all partitions: every future must
-	// get the reply of its own command
-	for _, p := range paths {
-		pp, ok := p.(*pipePath)
-		if !ok {
-			continue
-		}
-		for b := 0; b < envInt("VERIF_BATCHES", 4); b++ {
-			rec := NewRecorder()
-			var setup, batch []Step
-			var fin Script
-			fin = Script{Client: "fin", Path: paths[rng.Intn(len(paths))]}
-			for i := 0; i < 24; i++ {
-				key := fmt.Sprintf("b%d-%d", b, i)
-				kind := rng.Intn(8)
-				present := rng.Intn(2) == 0
-				switch {
-				case kind >= 5 && kind <= 6: // numeric keys
-					if present {
-						setup = append(setup, Step{Op: "incr", Key: key, Delta: 10 + i})
-					}
-					if kind == 5 {
-						batch = append(batch, Step{Op: "incr", Key: key, Delta: 1 + i})
-					} else {
-						batch = append(batch, Step{Op: "decr", Key: key, Delta: 1 + i})
-					}
-					fin.Steps = append(fin.Steps, Step{Op: "get", Key: key, Num: true})
-				case kind == 7:
-					if present {
-						setup = append(setup, Step{Op: "incrf", Key: key, Delta: 1024})
-					}
-					batch = append(batch, Step{Op: "incrf", Key: key, Delta: 512})
-					fin.Steps = append(fin.Steps, Step{Op: "get", Key: key, Float: true})
-				default:
-					if present {
-						setup = append(setup, Step{Op: "put", Key: key, Val: "old-" + key})
-					}
-					switch kind {
-					case 0:
-						batch = append(batch, Step{Op: "put", Key: key, Val: "new-" + key, Opts: PutOpts{NX: rng.Intn(3) == 0}})
-					case 1:
-						batch = append(batch, Step{Op: "get", Key: key})
-					case 2:
-						batch = append(batch, Step{Op: "del", Key: key})
-					case 3:
-						batch = append(batch, Step{Op: "getput", Key: key, Val: "gp-" + key})
-					default:
-						batch = append(batch, Step{Op: "put", Key: key, Val: "xx-" + key, Opts: PutOpts{XX: true}})
-					}
-					fin.Steps = append(fin.Steps, Step{Op: "get", Key: key})
+			defer c.Shutdown()
+			sum.Configs = append(sum.Configs, shape)
+			paths := allPaths(t, c)
+			for _, m := range c.Live()[:1] {
+				pp, err := Pipeline(m)
+				if err != nil {
+					t.Fatal(err)
+				}
+				paths = append(paths, pp)
+			}
+			defer func() {
+				for _, p := range paths {
+					p.Close()
+				}
+			}()
+			type kase struct {
+				name  string
+				steps func(key string) []Step // the operation under test and its follow-ups (after the initial state)
+				lock  bool
+			}
+			var cases []kase
+			for _, cond := range []string{"", "NX", "XX"} {
+				for _, mode := range []string{"", "EX", "PX", "EXAT", "PXAT"} {
+					cond, mode := cond, mode
+					cases = append(cases, kase{name: "put" + cond + mode, steps: func(key string) []Step {
+						o := PutOpts{NX: cond == "NX", XX: cond == "XX", Mode: mode}
+						switch mode {
+						case "EX", "PX":
+							o.D = ms(120)
+						case "EXAT", "PXAT":
+							o.D = time.Duration(time.Now().Add(ms(420)).UnixMilli()) * time.Millisecond
+						}
+						at := ms(300)
+						if mode == "EXAT" || mode == "PXAT" {
+							at = 0
+						}
+						return []Step{{Op: "put", Key: key, Val: "new-" + key, Opts: o, At: at}, {Op: "get", Key: key},
+							{Op: "get", Key: key, At: ms(470)}}
+					}})
 				}
 			}
-			rec.Run("c15", []Script{{Client: "setup", Path: paths[0], Steps: setup}}, nil)
-			rec.Batch(context.Background(), "c15", "batch", pp, batch)
-			rec.Run("c15", []Script{fin}, nil)
-			sum.Evaluations += len(setup) + len(batch) + len(fin.Steps)
-			sum.Paths[pp.Name()+"-batch"]++
-			record(w, rec, &seq, sum, seen, trace.Ev{"cfg": "N=3 R=2 P=13", "batch": true}, func(h *History) bool { return true })
-		}
+			for _, msv := range []bool{false, true} {
+				msv := msv
+				cases = append(cases, kase{name: fmt.Sprintf("expire ms=%v", msv), steps: func(key string) []Step {
+					return []Step{{Op: "expire", Key: key, D: ms(100), Ms: msv, At: ms(300)}, {Op: "get", Key: key}, {Op: "get", Key: key, At: ms(450)}}
+				}})
+			}
+			cases = append(cases, kase{name: "getput", steps: func(key string) []Step {
+				return []Step{{Op: "getput", Key: key, Val: "gp-" + key, At: ms(300)}, {Op: "get", Key: key}, {Op: "get", Key: key, At: ms(450)}}
+			}})
+			cases = append(cases, kase{name: "del1", steps: func(key string) []Step {
+				return []Step{{Op: "mdel", Keys: []string{key}, At: ms(300)}, {Op: "get", Key: key}}
+			}})
+			for n := 2; n <= 4; n++ {
+				n := n
+				cases = append(cases, kase{name: fmt.Sprintf("del%d", n), steps: func(key string) []Step {
+					ks := []string{key}
+					for j := 1; j < n; j++ {
+						ks = append(ks, fmt.Sprintf("%s+%d", key, j))
+					}
+					st := []Step{}
+					for _, k := range ks[1:] {
+						st = append(st, Step{Op: "put", Key: k, Val: "x-" + k})
+					}
+					st = append(st, Step{Op: "mdel", Keys: ks, At: ms(300)})
+					for _, k := range ks {
+						st = append(st, Step{Op: "get", Key: k})
+					}
+					return st
+				}})
+			}
+			cases = append(cases, kase{name: "lock", lock: true, steps: func(key string) []Step {
+				// (a Get of the lock key would return the random token, which the driver cannot name)
+				return []Step{{Op: "lock", Key: key, D: 0, Deadline: ms(50), At: ms(300)}, {Op: "lease", Key: key, D: ms(100)},
+					{Op: "unlock", Key: key}, {Op: "get", Key: key}}
+			}})
+			cases = append(cases, kase{name: "locktimeout", lock: true, steps: func(key string) []Step {
+				return []Step{{Op: "lock", Key: key, D: ms(120), Deadline: ms(50), At: ms(300)},
+					{Op: "lock", Key: key, D: ms(100), Deadline: ms(40), At: ms(330), Slot: 1},
+					{Op: "lock", Key: key, D: ms(100), Deadline: ms(400), At: ms(480), Slot: 2}, {Op: "unlock", Key: key, Slot: 2}}
+			}})
+			numCases := []kase{
+				{name: "incr", steps: func(key string) []Step {
+					return []Step{{Op: "incr", Key: key, Delta: 4, At: ms(300)}, {Op: "get", Key: key, Num: true}, {Op: "get", Key: key, Num: true, At: ms(450)}}
+				}},
+				{name: "decr", steps: func(key string) []Step {
+					return []Step{{Op: "decr", Key: key, Delta: 3, At: ms(300)}, {Op: "get", Key: key, Num: true}, {Op: "get", Key: key, Num: true, At: ms(450)}}
+				}},
+			}
+			fltCase := kase{name: "incrbyfloat", steps: func(key string) []Step {
+				return []Step{{Op: "incrf", Key: key, Delta: 512, At: ms(300)}, {Op: "get", Key: key, Float: true}}
+			}}
+			rec := NewRecorder()
+			var scripts []Script
+			add := func(k kase, init string, p Path, setup []Step) {
+				if rng.Intn(100) >= fraction {
+					return
+				}
+				if k.lock {
+					if _, ok := p.(*pipePath); ok {
+						return
+					}
+				}
+				n++
+				key := fmt.Sprintf("q%d", n)
+				// the initial state is established through an embedded client on the first member
+				var st []Step
+				for _, s := range setup {
+					s.Key = key
+					st = append(st, s)
+				}
+				sum.Paths[p.Name()]++
+				// ... by the same script, so that the operation under test can never overlap it however slow the machine is
+				for j := range st {
+					st[j].Via = paths[0]
+				}
+				steps := append(st, k.steps(key)...)
+				scripts = append(scripts, Script{Client: fmt.Sprintf("u%d", n), Path: p, Steps: steps})
+				sum.Evaluations += len(steps)
+				if len(sum.Samples) < 3 && rng.Intn(50) == 0 {
+					sum.Samples = append(sum.Samples, map[string]any{"case": k.name, "initial": init, "path": p.Name(), "steps": steps})
+				}
+			}
+			for _, p := range paths {
+				for _, k := range cases {
+					add(k, "absent", p, nil)
+					add(k, "present", p, []Step{{Op: "put", Val: "old"}})
+					add(k, "present+ttl", p, []Step{{Op: "put", Val: "old", Opts: PutOpts{Mode: "PX", D: ms(420)}}})
+				}
+				for _, k := range numCases {
+					add(k, "absent", p, nil)
+					add(k, "present", p, []Step{{Op: "incr", Delta: 10}})
+					add(k, "present+ttl", p, []Step{{Op: "incr", Delta: 10}, {Op: "expire", D: ms(420), Ms: true}})
+				}
+				add(fltCase, "absent", p, nil)
+				add(fltCase, "present", p, []Step{{Op: "incrf", Delta: 1024}})
+			}
+			if len(sum.Samples) == 0 && len(scripts) > 0 {
+				sum.Samples = append(sum.Samples, map[string]any{"path": scripts[len(scripts)-1].Path.Name(), "steps": scripts[len(scripts)-1].Steps})
+			}
+			rec.Run("c15", scripts, nil)
+			record(w, rec, &seq, sum, seen, trace.Ev{"cfg": shape}, func(h *History) bool { return true })
+			// one pipeline carrying many operations, one per key, of every kind, spread over all partitions: every future must
+			// get the reply of its own command
+			for _, p := range paths {
+				pp, ok := p.(*pipePath)
+				if !ok {
+					continue
+				}
+				for b := 0; b < envInt("VERIF_BATCHES", 4); b++ {
+					rec := NewRecorder()
+					var setup, batch []Step
+					var fin Script
+					fin = Script{Client: "fin", Path: paths[rng.Intn(len(paths))]}
+					for i := 0; i < 24; i++ {
+						key := fmt.Sprintf("b%d-%d-%d", si, b, i)
+						kind := rng.Intn(8)
+						present := rng.Intn(2) == 0
+						switch {
+						case kind >= 5 && kind <= 6: // numeric keys
+							if present {
+								setup = append(setup, Step{Op: "incr", Key: key, Delta: 10 + i})
+							}
+							if kind == 5 {
+								batch = append(batch, Step{Op: "incr", Key: key, Delta: 1 + i})
+							} else {
+								batch = append(batch, Step{Op: "decr", Key: key, Delta: 1 + i})
+							}
+							fin.Steps = append(fin.Steps, Step{Op: "get", Key: key, Num: true})
+						case kind == 7:
+							if present {
+								setup = append(setup, Step{Op: "incrf", Key: key, Delta: 1024})
+							}
+							batch = append(batch, Step{Op: "incrf", Key: key, Delta: 512})
+							fin.Steps = append(fin.Steps, Step{Op: "get", Key: key, Float: true})
+						default:
+							if present {
+								setup = append(setup, Step{Op: "put", Key: key, Val: "old-" + key})
+							}
+							switch kind {
+							case 0:
+								batch = append(batch, Step{Op: "put", Key: key, Val: "new-" + key, Opts: PutOpts{NX: rng.Intn(3) == 0}})
+							case 1:
+								batch = append(batch, Step{Op: "get", Key: key})
+							case 2:
+								batch = append(batch, Step{Op: "del", Key: key})
+							case 3:
+								batch = append(batch, Step{Op: "getput", Key: key, Val: "gp-" + key})
+							default:
+								batch = append(batch, Step{Op: "put", Key: key, Val: "xx-" + key, Opts: PutOpts{XX: true}})
+							}
+							fin.Steps = append(fin.Steps, Step{Op: "get", Key: key})
+						}
+					}
+					rec.Run("c15", []Script{{Client: "setup", Path: paths[0], Steps: setup}}, nil)
+					rec.Batch(context.Background(), "c15", "batch", pp, batch)
+					rec.Run("c15", []Script{fin}, nil)
+					sum.Evaluations += len(setup) + len(batch) + len(fin.Steps)
+					sum.Paths[pp.Name()+"-batch"]++
+					record(w, rec, &seq, sum, seen, trace.Ev{"cfg": shape, "batch": true}, func(h *History) bool { return true })
+				}
+			}
+		}()
 	}
 	if err := w.Close(); err != nil {
 		t.Fatal(err)
